@@ -8,6 +8,7 @@ import numpy as np
 
 from core import Ctx, Violation, ints, line
 from props import maskgen_common as G
+from props import c06_hist as H
 from props.c04 import (_guard, acs_lines, answer, circus_thresholds, frames_of, gen_lines, gid, hang_violations, mid,
                        pack_bits, run, worker, TIMEOUT)
 
@@ -144,15 +145,126 @@ def correspondence(ctx: Ctx):
     from props.c04 import generator_cases
 
     yield from generator_cases(ctx, ctx.budget(6, 150), acs=True)
+    yield from float_glue_cases(ctx)
+    yield from history_cases(ctx)
 
 
 # --------------------------------------------------------------------------------------------------
-def check_acs(spec: dict, acs: dict, mask: dict):
-    """C06 stated on one real (ACS, mask) pair produced with the same arguments; yields (key, what)"""
+def ratio(x) -> tuple[int, int]:
+    """exact value of a Python number as a fraction (ints stay ints)"""
+    if isinstance(x, int):
+        return x, 1
+    n, d = float(x).as_integer_ratio()
+    return n, d
+
+
+def float_glue_cases(ctx: Ctx):
+    """(a) the binary64 model `fl53` against CPython's correctly rounded int / int division, `round` and `int`;
+    (b) the ACS width `numLow` computes from (cols, centre fraction, acceleration) against the width of the block the
+    real generator returns — fractions chosen so that `cols * cf` falls on and next to ties"""
+    from math import gcd
+
+    rng = ctx.rng
+    for k in range(ctx.budget(120, 2000)):
+        kind = k % 4
+        if kind == 0:          # cols * cf with cf a double
+            n = rng.choice(G.SIZES + [96, 128, 218, 320, 368, 640])
+            cn, cd = ratio(rng.choice(G.FRACTIONS + [0.06, 0.12, 0.16, 1 / 3, 0.7, (rng.randint(0, n) + 0.5) / n, rng.random()]))
+            num, den = n * cn, cd
+        elif kind == 1:        # cols / acceleration
+            num, den = rng.choice(G.SIZES + [218, 320, 640]), rng.choice(G.ACCELERATIONS + [7, 9, 12, 16])
+        elif kind == 2:        # ties and their neighbours
+            q, den = rng.randint(0, 400), rng.choice([2, 4, 6, 10, 2 ** 40])
+            num = (2 * q + 1) * (den // 2) + rng.choice([0, 0, 1, -1])
+            num = max(num, 1)
+        else:
+            num, den = rng.randrange(1, 2 ** rng.randint(1, 70)), rng.randrange(1, 2 ** rng.randint(1, 70))
+
+        def impl(num=num, den=den):
+            x = num / den                      # CPython: correctly rounded true division of ints
+            a, b = x.as_integer_ratio()
+            return "ok " + ints([a, b]) + " | " + ints([round(x), int(x)])
+        yield {"line": line("fl53", [num, den]), "impl": impl, "nontrivial": num % den != 0,
+               "bucket": "kernel/fl53/" + ["cols*cf", "cols/acc", "tie", "random"][kind]}
+    names = [g for g in G.GENERATORS if G.FAMILY[g] in ("line", "ktline")]
+    for k in range(ctx.budget(90, 900)):
+        name = names[k % len(names)]
+        cols = rng.choice(G.SIZES)
+        acc = rng.choice(G.ACCELERATIONS)
+        if G.takes_count(name):       # accepted: Python ints > 1; rejected by the constructor: 1, floats
+            cf = rng.choice([rng.randint(2, cols), rng.randint(2, cols), rng.randint(2, cols), float(rng.randint(2, cols)), 1, 1.0])
+        else:
+            cf = rng.choice(G.FRACTIONS + [0.06, 0.12, 0.16, 0.5, (rng.randint(0, cols // 2) + 0.5) / cols,
+                                           (rng.randint(0, cols // 2) + 0.5) / cols, rng.random() * 0.6])
+            if name.startswith("FastMRI") and rng.random() < 0.08:
+                cf = rng.choice([1.0, 1, 1.5, 2])      # rejected by the constructor
+        mode = "dynamic" if G.is_kt(name) else "static"
+        spec = {"gen": name, "mode": mode, "shape": ([2] if mode != "static" else []) + [3, cols, 2], "acc": acc, "cf": cf,
+                "seed": 5, "return_acs": True}
+        res = run(spec)
+        a = ("ok " + str(bin(res["rows"][0]).count("1"))) if res.get("ok") and res.get("rows") else answer(res)
+        cn, cd = ratio(cf)
+        an, ad = ratio(acc)
+        tie = (2 * cols * cn) % cd == 0 and (cols * cn) % cd != 0
+        yield {"line": line("num_low_exact", [gid(name), cols], [cn, cd, an, ad, 1 if isinstance(cf, int) else 0]), "impl": (lambda a=a: a),
+               "nontrivial": res.get("ok", False),
+               "bucket": f"kernel/num_low_exact/{name}" + ("/tie" if tie else "") + ("" if res.get("ok") else "/rejected")}
+
+
+_ERR_CODE = {"ValueError": 1, "RuntimeError": 2, "IndexError": 3}
+
+
+def history_cases(ctx: Ctx):
+    """persistent-object histories through the model's object machine: the model's stream is the table
+    seed -> `RandomState(seed).randint(0, npairs)` computed with numpy alone, never the draws of the call itself"""
+    rng = ctx.rng
+    per_gen = ctx.budget(1, 8)
+    for name in G.GENERATORS:
+        modes = G.modes_of(name)
+        for k in range(per_gen):
+            spec = history_spec(rng, name, modes[(k + 1 + gid(name)) % len(modes)])
+            if spec is None or spec["cf"] is None:
+                continue
+            spec = dict(spec, record=False, refs=False)
+            res = hist_worker(name).run(spec, 90.0)
+            if not res.get("ok") or len(res.get("calls", [])) != len(spec["calls"]):
+                a = answer(res)
+                calls = []
+            else:
+                calls = res["calls"]
+                out = []
+                for c, r in zip(spec["calls"], calls):
+                    if c["return_acs"]:
+                        out += ([r["shape"], r["rows"]] if r.get("ok") and r.get("rows") is not None
+                                else [[-1], [_ERR_CODE.get(r.get("err"), 9)]])
+                a = "ok " + " | ".join(ints(g) for g in out)
+            seeds: list = []
+            for c in spec["calls"]:
+                if c["seed"] not in seeds:
+                    seeds.append(c["seed"])
+            npairs = len(spec["acc"])
+            choices = [np_choice(name, e, npairs) for e in seeds]
+            shapes = {(c["shape"][-3], c["shape"][-2]) for c in spec["calls"]}
+            pairs = []
+            for acc, cf in zip(spec["acc"], spec["cf"]):
+                radii = [v for (r, c2) in sorted(shapes) for v in (r, c2, G.disc_radius(r, c2, cf))] if G.FAMILY[name] == "disc" else []
+                pairs.append(list(ratio(cf)) + list(ratio(acc)) + radii)
+            groups = [[gid(name), mid(spec["mode"]), npairs], choices] + pairs + \
+                     [[seeds.index(c["seed"]), 1 if c["return_acs"] else 0] + list(c["shape"]) for c in spec["calls"]]
+            yield {"line": line("acs_hist", *groups), "impl": (lambda a=a: a),
+                   "nontrivial": sum(1 for c, r in zip(spec["calls"], calls) if c["return_acs"] and r.get("ok")) >= 2,
+                   "bucket": f"history/{name}/pairs{npairs}"}
+
+
+# --------------------------------------------------------------------------------------------------
+def check_acs(spec: dict, acs: dict, mask: dict, pair=None):
+    """C06 stated on one real (ACS, mask) pair produced with the same arguments; yields (key, what).
+    `pair`: the (acceleration, centre fraction) the seeded stream selects, when it is known from another recorded
+    call with the same arguments (default: read off the draws recorded for `mask`)"""
     name, mode, shape = spec["gen"], spec["mode"], spec["shape"]
     if not (acs.get("ok") and mask.get("ok")):
         return
-    acc, cf = G.chosen(spec, mask)     # the pair the seeded stream selects for the sampling mask
+    acc, cf = pair if pair is not None else G.chosen(spec, mask)     # the pair the seeded stream selects for the sampling mask
     rows, cols = shape[-3], shape[-2]
     F = frames_of(mode, shape)
     A, M = acs["rows"], mask["rows"]
@@ -197,6 +309,235 @@ def check_acs(spec: dict, acs: dict, mask: dict):
                    and 0 <= 2 * cx - x < rows and 0 <= 2 * cy - y < cols and not grid[2 * cx - x][2 * cy - y]]
             if bad:
                 yield f"acs-not-symmetric-{name}", f"{name}: disc not point-symmetric about ({cx},{cy}): {bad[:3]}"
+
+
+# --------------------------------------------------------------------------------------------------
+# call histories on ONE persistent mask-function object with several (acceleration, centre fraction) pairs, and the
+# seed forms callers really use (0 and other falsy values, 2**32 - 1, one-element tuples, numpy integers, file names)
+RESEEDING = ("Gaussian1D", "Gaussian2D", "VariableDensityPoisson")      # `self.rng.seed(integerize_seed(seed))`
+EDGE_SEEDS = [{"k": "int", "v": 0}, {"k": "int", "v": 1}, {"k": "int", "v": 2 ** 32 - 1}, {"k": "tuple", "v": [0]},
+              {"k": "list", "v": [0, 0]}, {"k": "bool", "v": False}, {"k": "tuple", "v": [2 ** 32 - 1]},
+              {"k": "fname", "v": "file_0001.h5"}, {"k": "fname", "v": "a"}]
+NP_SEEDS = [{"k": "np", "t": "int64", "v": 0}, {"k": "np", "t": "uint32", "v": 7}, {"k": "np", "t": "int32", "v": 123}]
+_hist_workers: dict[str, G.Worker] = {}
+
+
+def hist_worker(name: str) -> G.Worker:
+    """histories that run the compiled `_poisson` kernel get a process of their own (cf. maskgen_common.isolated)"""
+    import atexit
+
+    k = "vdp" if name == "VariableDensityPoisson" else "main"
+    if k not in _hist_workers:
+        _hist_workers[k] = G.Worker("props.c06_hist", "run_hist")
+        atexit.register(_hist_workers[k].close)
+    return _hist_workers[k]
+
+
+def np_choice(name: str, enc: dict, k: int) -> int:
+    """index `choose_acceleration` must pick for this seed according to numpy alone (`RandomState.seed(s)` then
+    `randint(0, k)`; the three re-seeding generators first map a tuple/list to `RandomState(s).randint(0, 1e6)`).
+    Used to steer the generator towards seeds selecting different pairs and as the seed -> choice table of the
+    model-side history check; the oracle itself reads the choice off a recorded call on a fresh object."""
+    seed = H.dec_seed(enc)
+    r = np.random.RandomState()
+    if name in RESEEDING and not isinstance(seed, int):
+        r.seed(seed)
+        seed = r.randint(0, 1e6)
+    r.seed(seed)
+    return int(r.randint(0, k))
+
+
+def acs_size(name: str, rows: int, cols: int, acc, cf):
+    return acs_lines(name, cols, acc, cf) if G.FAMILY[name] in ("line", "ktline") else G.disc_radius(rows, cols, cf)
+
+
+def multi_config(rng, name: str, shapes, npairs: int):
+    """`npairs` (acceleration, centre fraction) pairs, feasible for every shape, with pairwise different ACS sizes"""
+    rows, cols = shapes[0][-3], shapes[0][-2]
+    for _ in range(40):
+        prs: list = []
+        for _ in range(300):
+            acc = rng.choice(G.ACCELERATIONS)
+            cf = rng.randint(2, max(2, cols // 3)) if G.takes_count(name) else rng.choice(G.FRACTIONS + [0.06, 0.16, 0.12])
+            if (acc, cf) in prs or not all(G.feasible(name, s[-3], s[-2], acc, cf) for s in shapes):
+                continue
+            if acs_size(name, rows, cols, acc, cf) in [acs_size(name, rows, cols, a, c) for a, c in prs]:
+                continue
+            prs.append((acc, cf))
+            if len(prs) == npairs:
+                return [p[0] for p in prs], [p[1] for p in prs]
+    return None
+
+
+def history_spec(rng, name: str, mode: str, quick_masks: bool = True):
+    """one persistent-object history: ACS requests with seeds selecting different pairs directly after one another,
+    masks in between, a second shape, falsy / edge seeds repeated"""
+    small = name in ("VariableDensityPoisson", "KtRadial", "Gaussian2D", "Radial", "Spiral")
+    for _ in range(30):
+        sh = G.sample_shape(rng, name, mode, small=small)
+        if name == "VariableDensityPoisson":
+            sh[-3], sh[-2] = rng.choice([(12, 12), (13, 12), (16, 16), (12, 16), (15, 15)])
+        other = list(sh)
+        if rng.random() < 0.5:
+            other[-2] = rng.choice([c for c in (G.SIZES[:12] if small else G.SIZES) if c != sh[-2]])
+        else:
+            other[0] = sh[0] + 1          # same rows / cols, another leading dimension
+        if name == "VariableDensityPoisson":
+            other = list(sh)
+            other[0] = sh[0] + 1
+        shapes = [sh, other]
+        npairs = rng.choice([2, 2, 3])
+        circus_search = name in ("Radial", "Spiral") and rng.random() < 0.35
+        if circus_search:
+            accs = rng.sample([3, 4, 5, 6, 8], npairs)
+            cfg = (accs, None)
+        else:
+            cfg = multi_config(rng, name, shapes, npairs)
+        if cfg is None:
+            continue
+        accs, cfs = cfg
+        k = len(accs)
+        pool = list(EDGE_SEEDS) + ([] if name in RESEEDING else list(NP_SEEDS))
+        pool += [{"k": "int", "v": rng.randrange(2 ** 31)} for _ in range(6)]
+        pool += [{"k": "tuple", "v": [rng.randrange(256) for _ in range(rng.randint(1, 8))]} for _ in range(3)]
+        rng.shuffle(pool)
+        zero = {"k": "int", "v": 0}
+        seeds = [zero]
+        # seeds that select every pair at least once (as numpy defines the choice), falsy/edge forms preferred
+        for want in range(k):
+            s = next((e for e in pool if e not in seeds and np_choice(name, e, k) == want), None)
+            if s is not None:
+                seeds.append(s)
+        seeds += [e for e in pool if e not in seeds][:1]
+        prim, sec = shapes
+
+        def c(s, shape, racs):
+            return {"shape": list(shape), "seed": s, "return_acs": racs}
+
+        order = list(seeds)
+        rng.shuffle(order)
+        calls = [c(s, prim, True) for s in order]                      # ACS, ACS, ACS … with different choices
+        heavy = name in ("VariableDensityPoisson", "KtRadial")
+        for i, s in enumerate(reversed(order)):
+            if not heavy or i < 2:
+                calls.append(c(s, prim, False))
+            calls.append(c(s, prim, True))
+        for s in order[:2]:
+            calls += [c(s, sec, True)] + ([c(s, sec, False)] if not heavy else []) + [c(s, prim, True)]
+        for _ in range(2):                                             # the falsy seed again, mask and ACS
+            calls += [c(zero, prim, False)] if not heavy else []
+            calls += [c(zero, prim, True), c(zero, sec, True)]
+        spec = {"gen": name, "mode": mode, "acc": accs, "cf": cfs, "record": rng.random() < 0.5, "refs": True, "calls": calls}
+        if name == "VariableDensityPoisson":
+            spec["extra"] = {"max_attempts": 5}
+        elif rng.random() < 0.25:
+            o = G.sample_options(rng, name, sh[-3], sh[-2])
+            if o:
+                spec["extra"] = o
+        return spec
+    return None
+
+
+def check_history(spec: dict, res: dict):
+    """C06 on every call of a persistent-object history; yields (key, what, call index)"""
+    name = spec["gen"]
+    if not res.get("ok"):
+        return
+    refs = res.get("refs", {})
+    for i, (c, r) in enumerate(zip(spec["calls"], res["calls"])):
+        one = {"gen": name, "mode": spec["mode"], "shape": c["shape"], "acc": spec["acc"], "cf": spec["cf"]}
+        ref_m = refs.get(H._key(dict(c, return_acs=False)))
+        ref_a = refs.get(H._key(dict(c, return_acs=True)))
+        known = next((x for x in (ref_m, ref_a) if x and x.get("draws")), None)
+        if known is None:
+            continue
+        pair = G.chosen(one, known)           # the pair this seed selects on a fresh object
+        tag = f" [call {i} of a history on one object: seed={H.seed_text(c['seed'])}, shape={c['shape']}]"
+        if c["return_acs"]:
+            if r.get("ok") is not True and ref_a and ref_a.get("ok"):
+                yield f"history/acs-raises-{name}", f"{name}: the ACS request raises {r.get('err')} on a used object, not on a fresh one" + tag, i
+                continue
+            masks = [m for m in [ref_m] + [r2 for c2, r2 in zip(spec["calls"], res["calls"])
+                                           if not c2["return_acs"] and c2["shape"] == c["shape"] and c2["seed"] == c["seed"]]
+                     if m and m.get("ok")]
+            if not masks and ref_a and ref_a.get("ok"):
+                masks = [ref_a]               # no mask with these arguments was made: geometry / count only
+            for m in masks[:3]:
+                hit = False
+                for key, what in check_acs(one, r, m, pair=pair):
+                    hit = True
+                    yield "history/" + key, what + tag, i
+                if hit:
+                    break
+        elif r.get("ok") and ref_a and ref_a.get("ok"):
+            for key, what in check_acs(one, ref_a, r, pair=pair):
+                if key.startswith("acs-not-subset"):
+                    yield "history/" + key, what + " (mask made on a used object, ACS of a fresh one)" + tag, i
+
+
+def shrink_history(spec: dict, idx: int, key: str) -> tuple[dict, int]:
+    """drop calls that are not needed for call `idx` to violate (greedy; a candidate must fail twice)"""
+    def fails(s, j):
+        for _ in range(2):
+            res = hist_worker(s["gen"]).run(s, 90.0)
+            if not any(k == key and i == j for k, _w, i in check_history(s, res)):
+                return False
+        return True
+
+    cur = dict(spec, calls=spec["calls"][:idx + 1])
+    j = idx
+    if not fails(cur, j):
+        return spec, idx
+    n = 0
+    pos = 0
+    while pos < j and n < 14:
+        cand = dict(cur, calls=cur["calls"][:pos] + cur["calls"][pos + 1:])
+        n += 1
+        if fails(cand, j - 1):
+            cur, j = cand, j - 1
+        else:
+            pos += 1
+    return cur, j
+
+
+def history_oracle(ctx: Ctx, seen: set, deep: bool):
+    rng = ctx.rng
+    per_gen = ctx.budget(2, 12) * (3 if deep else 1)
+    for name in G.GENERATORS:
+        modes = G.modes_of(name)
+        for k in range(per_gen if name != "VariableDensityPoisson" else max(1, per_gen // 2)):
+            spec = history_spec(rng, name, modes[(k + G.GENERATORS.index(name)) % len(modes)])
+            if spec is None:
+                continue
+            res = hist_worker(name).run(spec, 90.0)
+            if res.get("hang") or res.get("died"):
+                key = f"hang-{name}" if res.get("hang") else f"generator-crashes/{name}"
+                if key not in seen:
+                    seen.add(key)
+                    yield Violation(key, f"{name}: a {len(spec['calls'])}-call history on one object "
+                                    + ("did not return within 90 s" if res.get("hang") else "killed the process running it"),
+                                    {"op": "acs-history", "spec": spec, "observed": "hang" if res.get("hang") else "died"})
+                continue
+            n_acs = sum(1 for c, r in zip(spec["calls"], res.get("calls", [])) if c["return_acs"] and r.get("ok"))
+            kinds = sorted({c["seed"]["k"] for c in spec["calls"]})
+            ctx.count(("hist", json.dumps(spec, sort_keys=True)), n_acs >= 2,
+                      bucket=f"oracle/history/{name}/" + ("pairs" + str(len(spec["acc"]))) + ("/search" if spec["cf"] is None else "")
+                             + ("/rec" if spec["record"] else "/own-rng"))
+            ctx.hist["oracle/history/calls"] = ctx.hist.get("oracle/history/calls", 0) + len(spec["calls"])
+            for kd in kinds:
+                ctx.hist[f"oracle/history/seed-form/{kd}"] = ctx.hist.get(f"oracle/history/seed-form/{kd}", 0) + 1
+            for key, what, i in check_history(spec, res):
+                if key in seen:
+                    continue
+                seen.add(key)
+                small, j = shrink_history(spec, i, key)
+                yield Violation(key, what if small is spec else what.split(" [call ")[0] + f" [call {j} of the replay's {len(small['calls'])}-call history on one object: "
+                                f"seed={H.seed_text(small['calls'][j]['seed'])}, shape={small['calls'][j]['shape']}]",
+                                {"op": "acs-history", "spec": small, "call": j, "key": key,
+                                 "accelerations": spec["acc"], "center_fractions": spec["cf"],
+                                 "calls": [f"{'ACS ' if c['return_acs'] else 'mask'}(shape={c['shape']}, seed={H.seed_text(c['seed'])})"
+                                           for c in small["calls"]],
+                                 "instance_attributes": {"before": res.get("attrs_before"), "after": res.get("attrs_after")}})
 
 
 def oracle(ctx: Ctx, deep: bool = False):
@@ -262,17 +603,23 @@ def oracle(ctx: Ctx, deep: bool = False):
                 continue
             if G.risky(spec):         # the `_poisson` active-list overrun is C04/C07's finding, not an ACS matter
                 spec["extra"]["max_attempts"] = 5
-            if name in ("Radial", "Spiral") and rng.random() < 0.3 and not isinstance(spec["acc"], list):
-                spec["cf"] = None
+            if name in ("Radial", "Spiral") and rng.random() < 0.3:
+                spec["cf"] = None         # largest-sampled-disc search, also with several accelerations
+            edge = rng.random() < 0.35
+            if edge:                      # falsy / boundary seeds, one-element and file-name tuples (fresh object per call)
+                spec["seed"] = rng.choice([0, 0, 0, 1, 2 ** 32 - 1, [0], [0, 0], [2 ** 32 - 1], list(map(ord, "file_0001.h5"))])
             acs, mask = run(dict(spec, return_acs=True)), run(dict(spec, return_acs=False))
             both = bool(acs.get("ok") and mask.get("ok"))
             ctx.count(("acs", json.dumps(spec, sort_keys=True)), both and any(acs.get("rows") or []),
-                      bucket=f"oracle/{name}/" + ("pair" if both else "raised" if not (acs.get("hang") or mask.get("hang")) else "hang"))
+                      bucket=f"oracle/{name}/" + ("pair" if both else "raised" if not (acs.get("hang") or mask.get("hang")) else "hang")
+                             + ("/edge-seed" if edge else "") + ("/multi" if isinstance(spec["acc"], list) else ""))
             for key, what in check_acs(spec, acs, mask):
                 if key not in seen:
                     seen.add(key)
                     yield Violation(key, what, {"op": "acs-pair", "spec": spec,
                                                 "acs_rows": (acs.get("rows") or [])[:4], "mask_rows": (mask.get("rows") or [])[:4]})
+    # (3) persistent objects, several pairs, interleaved mask / ACS requests, edge seeds
+    yield from history_oracle(ctx, seen, deep)
     yield from hang_violations(seen)
 
 
@@ -287,6 +634,13 @@ def replay(rep: dict) -> bool:
         w = worker()
         acs, mask = w.run(dict(spec, return_acs=True), TIMEOUT), w.run(dict(spec, return_acs=False), TIMEOUT)
         return bool(list(check_acs(spec, acs, mask))) or bool(acs.get("hang") or mask.get("hang"))
+    if op == "acs-history":
+        spec = rep["spec"]
+        for _ in range(3):               # seeds replaced by OS entropy make single runs probabilistic
+            res = hist_worker(spec["gen"]).run(spec, 90.0)
+            if res.get("hang") or res.get("died") or any(True for _k in check_history(spec, res)):
+                return True
+        return False
     if op == "magic-cap":
         res = worker().run(rep["spec"], TIMEOUT)
         got = bin(res["rows"][0]).count("1") if res.get("ok") and res.get("rows") else None
